@@ -6,12 +6,14 @@ import (
 	"github.com/trustbloc/sidetree-go/pkg/api/protocol"
 	"github.com/trustbloc/sidetree-go/pkg/vdr/sidetreelongform/dochandler"
 	"github.com/trustbloc/sidetree-go/pkg/versions/1_0/doctransformer/didtransformer"
+	"github.com/trustbloc/sidetree-go/pkg/versions/1_0/doctransformer/doctransformer"
 
 	"verif/harness/internal/proto"
 )
 
 func init() {
 	register("transform", transformKind)
+	register("gtransform", gtransformKind)
 	register("resolve", resolveKind)
 	register("process", processKind)
 }
@@ -122,6 +124,39 @@ func transformKind(c *proto.Case) interface{} {
 		out["earlier_result_changed"] = true
 	}
 	return out
+}
+
+// gtransformKind: C18 — the generic document transformer (doctransformer.Transformer).
+func gtransformKind(c *proto.Case) interface{} {
+	rm := rmFromJSON(c.Body["state"])
+	o := proto.Obj(c.Body["opts"])
+	var opts []doctransformer.Option
+	if b, _ := o["pub"].(bool); b {
+		opts = append(opts, doctransformer.WithIncludePublishedOperations(true))
+	}
+	if b, _ := o["unpub"].(bool); b {
+		opts = append(opts, doctransformer.WithIncludeUnpublishedOperations(true))
+	}
+	info := protocol.TransformationInfo{}
+	for k, v := range proto.Obj(c.Body["info"]) {
+		if arr, ok := v.([]interface{}); ok && k == "equivalentId" {
+			var ss []string
+			for _, x := range arr {
+				ss = append(ss, x.(string))
+			}
+			info[k] = ss
+		} else {
+			info[k] = v
+		}
+	}
+	if rm.Doc == nil {
+		return M{"class": "skipped-nil-document"}
+	}
+	res, err := doctransformer.New(opts...).TransformDocument(rm, info)
+	if err != nil {
+		return M{"class": "err"}
+	}
+	return M{"class": "ok", "result": resultJSON(res)}
 }
 
 func handlerFor(ns string) (*dochandler.DocumentHandler, error) {
